@@ -1,3 +1,4 @@
+pub mod fuzz;
 pub mod realbin;
 pub mod runner;
 pub mod sut;
